@@ -336,13 +336,14 @@ func (t *Transport) Close() error {
 func (t *Transport) handleLinkLost(addrStr string, lnk *Link) {
 	t.mtx.Lock()
 	existing := t.links[addrStr]
-	rel := existing == lnk
-	if rel {
+	if existing == lnk {
 		delete(t.links, addrStr)
 	}
 	t.mtx.Unlock()
 
-	if t.handler != nil && rel {
+	// Report the loss even if a newer link took over the address: the handler
+	// was told that this link was established and has to drop it.
+	if t.handler != nil {
 		t.handler.HandleLinkLost(lnk)
 	}
 }
